@@ -254,7 +254,9 @@ def _run_case(ctx, P, stream, idx):
     # prose whose lines open with a word that would head a section if a colon / underline followed
     lead = docgen.SECTION_WORDS if stream == "keyword_prose" else None
     text, parts = docgen.compose(r, S, indent=indent, params=params, paragraphs=r.randint(1, 3), with_footer=with_footer,
-                                 lead_nl=r.random() < 0.8, header_lead=lead)
+                                 lead_nl=r.random() < 0.8, header_lead=lead,
+                                 # descriptions (the return's too) that run over several lines, a third of the time
+                                 multi_line=__import__("random").Random(r.random()).random() < 0.33)
     feats = "S=%s,indent=%d,footer=%s,params=%s,ret=%s" % (S, indent, parts["footer"].split("\n")[0].split(":")[0][:8]
                                                           if with_footer else "none", n_params > 0,
                                                           parts["returns"] is not None)
